@@ -25,6 +25,9 @@ def step (line : String) : String :=
   | ["subtopics", pk] => match unhex pk with
       | some b => String.intercalate "," ((subscribeTopics b).map hex)
       | none => "bad-op"
+  | ["vstart", pk, _spk] => match unhex pk with   -- Validator.Start: subscribes for the VALIDATOR key; the share key plays no role
+      | some b => String.intercalate "," ((subscribeTopics b).map hex)
+      | none => "bad-op"
   | ["accept", pk, t] => match unhex pk, unhex t with
       | some b, some tt => if validatorAcceptsTopic b tt then "1" else "0"
       | _, _ => "bad-op"
